@@ -163,8 +163,19 @@ func runCheck(prop, tier string, seed int, t0 time.Time) int {
 			unsup[e.fn.String()+": "+u] = true
 		}
 	}
-	for _, a := range c.Assumes {
-		assumptions[a] = true
+	// free-text assumptions of a spec file are listed when one of that file's contracts was actually used
+	usedFiles := map[string]bool{}
+	for a := range assumptions {
+		if strings.HasPrefix(a, "assumed contract: ") {
+			if fc := w.C.Funcs[normalizeFnKey(strings.TrimPrefix(a, "assumed contract: "))]; fc != nil {
+				usedFiles[fc.File] = true
+			}
+		}
+	}
+	for _, a := range w.C.Assumes {
+		if f, ok := w.C.AssumeFile[a]; !ok || usedFiles[f] || !strings.HasSuffix(f, ".spec") {
+			assumptions[a] = true
+		}
 	}
 	// ---- known findings ----
 	kfs := loadKnownFindings()
@@ -227,7 +238,7 @@ func runCheck(prop, tier string, seed int, t0 time.Time) int {
 	trusted := sortedKeys(assumptions)
 	trusted = append(trusted,
 		"go/packages + go/ssa (x/tools v0.29.0) SSA construction",
-		"govc SSA->SMT encoding (this tool)",
+		"govc SSA->SMT encoding (this tool); machine integers: mathematical with wrap-around over-approximated (int-mode) or exact bit-vectors (bv-mode); slice/string lengths assumed <= 2^56 (address space)",
 		"z3 4.8.12 / z3-new 5.1.0 / cvc5 1.0.x: an unsat answer from one solver is accepted (thorough: two)")
 	cov := map[string]interface{}{
 		"obligations":              total,
